@@ -7,6 +7,7 @@
   is `p.coeff d` (there is no function coercion), so "(toMv L f) d" is written `(toMv L f).coeff d`.
 -/
 import Mathlib.Algebra.MonoidAlgebra.Defs
+import Mathlib.Algebra.MonoidAlgebra.Basic
 import Mathlib.Algebra.BigOperators.Group.List.Basic
 import Mathlib.Data.Finset.Card
 import Mathlib.Tactic.Ring
@@ -1170,6 +1171,245 @@ theorem times_spec {R : Ring α} (hR : R.ideal = none) (L : Lawful R.F K) {f g :
     obtain ⟨h, e, w, t⟩ := mulNoReduce_some L hf.cv hg.cv hno
     refine ⟨h, ?_, w, Bounded_mulNoReduce e, t⟩
     rw [e, hR]
+
+theorem times_cases {R : Ring α} (hR : R.ideal = none) (L : Lawful R.F K) {f g : BPoly α}
+    (hf : WF L f) (hg : WF L g) (bf : Bounded f) (bg : Bounded g) :
+    times R f g = .error .overflow ∨
+    ∃ h, times R f g = .ok (some h) ∧ WF L h ∧ Bounded h ∧ toMv L h = toMv L f * toMv L g := by
+  by_cases hov : Ovf f g
+  · exact Or.inl ((times_spec hR L hf hg bf bg).1 hov)
+  · exact Or.inr ((times_spec hR L hf hg bf bg).2 hov)
+
+/-! ### `Pow` (ring without ideal) -/
+
+theorem powLoop_spec {R : Ring α} (hR : R.ideal = none) (L : Lawful R.F K) :
+    ∀ (fuel n : Nat) (out g : BPoly α), WF L out → WF L g → Bounded out → Bounded g →
+      (∀ h, powLoop R fuel n out g = .ok (some h) →
+        WF L h ∧ Bounded h ∧ toMv L h = toMv L out * toMv L g ^ n) ∧
+      (∀ k, powLoop R fuel n out g = .error k → k = .overflow) ∧
+      (0 < fuel → n < 2 ^ fuel → powLoop R fuel n out g ≠ .ok none) := by
+  intro fuel
+  induction fuel with
+  | zero =>
+    intro n out g _ _ _ _
+    simp [powLoop]
+  | succ fuel ih =>
+    intro n out g wo wg bo bg
+    simp only [powLoop]
+    by_cases hn : n = 0
+    · subst hn
+      simp only [if_true, pow_zero, mul_one]
+      refine ⟨?_, ?_, ?_⟩
+      · intro h e; cases e; exact ⟨wo, bo, rfl⟩
+      · intro k e; cases e
+      · intro _ _ e; cases e
+    · rw [if_neg hn]
+      have stage1 : (if n % 2 = 1 then times R out g else Except.ok (some out))
+            = .error .overflow ∨
+          ∃ o, (if n % 2 = 1 then times R out g else Except.ok (some out)) = .ok (some o) ∧
+            WF L o ∧ Bounded o ∧ toMv L o = toMv L out * toMv L g ^ (n % 2) := by
+        by_cases hodd : n % 2 = 1
+        · rw [if_pos hodd, hodd, pow_one]
+          exact times_cases hR L wo wg bo bg
+        · rw [if_neg hodd]
+          have : n % 2 = 0 := by omega
+          exact Or.inr ⟨out, rfl, wo, bo, by rw [this, pow_zero, mul_one]⟩
+      rcases stage1 with e1 | ⟨o, e1, w1, b1, t1⟩
+      · rw [e1]
+        refine ⟨?_, ?_, ?_⟩
+        · intro h e; cases e
+        · intro k e; cases e; rfl
+        · intro _ _ e; cases e
+      · rw [e1]
+        simp only
+        by_cases hhalf : n / 2 = 0
+        · rw [if_pos hhalf]
+          have h1 : n % 2 = n := by omega
+          refine ⟨?_, ?_, ?_⟩
+          · intro h e; cases e; exact ⟨w1, b1, by rw [t1, h1]⟩
+          · intro k e; cases e
+          · intro _ _ e; cases e
+        · rw [if_neg hhalf]
+          rcases times_cases hR L wg wg bg bg with e2 | ⟨g2, e2, w2, b2, t2⟩
+          · rw [e2]
+            refine ⟨?_, ?_, ?_⟩
+            · intro h e; cases e
+            · intro k e; cases e; rfl
+            · intro _ _ e; cases e
+          · rw [e2]
+            simp only
+            obtain ⟨ia, ib, ic⟩ := ih (n / 2) o g2 w1 w2 b1 b2
+            refine ⟨?_, ib, ?_⟩
+            · intro h e
+              obtain ⟨x1, x2, x3⟩ := ia h e
+              refine ⟨x1, x2, ?_⟩
+              rw [x3, t1, t2, ← pow_two, ← pow_mul, mul_assoc, ← pow_add]
+              congr 2
+              omega
+            · intro _ hlt
+              have hfuel : 0 < fuel := by
+                rcases Nat.eq_zero_or_pos fuel with h0 | h0
+                · subst h0; omega
+                · exact h0
+              apply ic hfuel
+              rw [pow_succ] at hlt
+              omega
+
+theorem WF_one (L : Lawful F K) : WF L ([((0, 0), F.one)] : BPoly α) := by
+  refine ⟨by simp, ?_⟩
+  intro dc hdc
+  simp only [List.mem_singleton] at hdc
+  subst hdc
+  exact ⟨L.one_valid, by simp [L.embed_one]⟩
+
+theorem toMv_one (L : Lawful F K) : toMv L ([((0, 0), F.one)] : BPoly α) = 1 := by
+  rw [toMv_cons, toMv_nil, add_zero, L.embed_one]
+  rfl
+
+/-- `Pow` in a ring without ideal: a returned value is the exact power, the only error is
+    Overflow, and the modelled fuel (70 halvings) suffices for every word exponent. -/
+theorem pow_spec {R : Ring α} (hR : R.ideal = none) (L : Lawful R.F K) {f : BPoly α}
+    (hf : WF L f) (bf : Bounded f) (n : Nat) :
+    (∀ h, pow R f n = .ok (some h) → WF L h ∧ Bounded h ∧ toMv L h = toMv L f ^ n) ∧
+    (∀ k, pow R f n = .error k → k = .overflow) ∧
+    (n < 2 ^ 64 → pow R f n ≠ .ok none) := by
+  unfold pow reduceIn
+  rw [hR]
+  simp only
+  have b1 : Bounded ([((0, 0), R.F.one)] : BPoly α) := by
+    intro dc hdc
+    simp only [List.mem_singleton] at hdc
+    subst hdc
+    exact ⟨by norm_num, by norm_num⟩
+  obtain ⟨ia, ib, ic⟩ := powLoop_spec hR L 70 n _ f (WF_one L) hf b1 bf
+  refine ⟨?_, ib, ?_⟩
+  · intro h e
+    obtain ⟨x1, x2, x3⟩ := ia h e
+    exact ⟨x1, x2, by rw [x3, toMv_one, one_mul]⟩
+  · intro hlt
+    apply ic (by norm_num)
+    calc n < 2 ^ 64 := hlt
+      _ ≤ 2 ^ 70 := Nat.pow_le_pow_right (by decide) (by decide)
+
+/-! ### order of the stored terms is irrelevant -/
+
+theorem WF_perm {f g : BPoly α} (h : f.Perm g) (hf : WF L f) : WF L g :=
+  ⟨(h.map _).nodup_iff.1 hf.1, fun dc hdc => hf.2 dc (h.mem_iff.2 hdc)⟩
+
+theorem coef_perm {f g : BPoly α} (h : f.Perm g) (hf : (keys f).Nodup) (d : Deg) :
+    coef F f d = coef F g d := by
+  have hg : (keys g).Nodup := (h.map _).nodup_iff.1 hf
+  by_cases hd : d ∈ keys f
+  · have := coef_mem (F := F) hd
+    exact (coef_of_mem hg (h.mem_iff.1 this)).symm
+  · have hd' : d ∉ keys g := fun h' => hd ((h.map _).mem_iff.2 h')
+    rw [coef_of_not_mem hd, coef_of_not_mem hd']
+
+/-! ### `eval` as the evaluation homomorphism of `K[X,Y]` -/
+
+/-- the evaluation homomorphism `K[X,Y] → K` at the point `(x, y)` -/
+noncomputable def evalHom (x y : K) : AddMonoidAlgebra K (ℕ × ℕ) →ₐ[K] K :=
+  AddMonoidAlgebra.lift K K (ℕ × ℕ)
+    { toFun := fun d => x ^ (Multiplicative.toAdd d).1 * y ^ (Multiplicative.toAdd d).2
+      map_one' := by simp
+      map_mul' := by
+        intro a b
+        simp only [toAdd_mul, Prod.fst_add, Prod.snd_add, pow_add]
+        ring }
+
+theorem evalHom_single (x y : K) (d : ℕ × ℕ) (c : K) :
+    evalHom x y (single d c) = c * x ^ d.1 * y ^ d.2 := by
+  unfold evalHom
+  rw [AddMonoidAlgebra.lift_single]
+  simp [mul_assoc]
+
+theorem evalHom_toMv (x y : K) (f : BPoly α) :
+    evalHom x y (toMv L f) = (f.map fun dc => L.embed dc.2 * x ^ dc.1.1 * y ^ dc.1.2).sum := by
+  induction f with
+  | nil => simp
+  | cons t r ih => rw [toMv_cons, map_add, evalHom_single, ih, List.map_cons, List.sum_cons]
+
+/-- `Eval` is the evaluation homomorphism at the point -/
+theorem eval_hom
+    (hpow : ∀ a n, L.valid a → L.valid (F.pow a n) ∧ L.embed (F.pow a n) = L.embed a ^ n)
+    {x y : α} (hx : L.valid x) (hy : L.valid y) {f : BPoly α} (hf : CV L f) :
+    L.embed (eval F f x y) = evalHom (L.embed x) (L.embed y) (toMv L f) := by
+  rw [eval_spec_list L hpow hx hy hf, evalHom_toMv]
+
+/-! ### full cancellation leaves the empty list -/
+
+theorem eq_nil_of_toMv_eq_zero {f : BPoly α} (hf : WF L f) (h : toMv L f = 0) : f = [] := by
+  have := (isZero_iff L hf).2 h
+  unfold isZero at this
+  exact List.isEmpty_iff.1 this
+
+theorem sub_self_eq_nil {f : BPoly α} (hf : WF L f) : sub F f f = [] :=
+  eq_nil_of_toMv_eq_zero L (WF_sub L hf hf.cv) (by rw [toMv_sub L hf hf.cv, sub_self])
+
+theorem add_neg_eq_nil {f : BPoly α} (hf : WF L f) : add F f (neg F f) = [] := by
+  have hn := WF_neg L hf
+  exact eq_nil_of_toMv_eq_zero L (WF_add L hf hn.cv)
+    (by rw [toMv_add L hf hn.cv, toMv_neg L hf.cv, add_neg_cancel])
+
+/-! ### canonical representations are unique up to the order of the terms -/
+
+theorem coef_eq_of_toMv_eq {f g : BPoly α} (hf : WF L f) (hg : WF L g)
+    (h : toMv L f = toMv L g) (d : Deg) : coef F f d = coef F g d := by
+  apply L.inj _ _ (coef_valid L hf.cv d) (coef_valid L hg.cv d)
+  rw [← toMv_apply L hf, ← toMv_apply L hg, h]
+
+theorem nodup_of_WF {f : BPoly α} (hf : WF L f) : f.Nodup := List.Nodup.of_map _ hf.1
+
+theorem perm_of_toMv_eq {f g : BPoly α} (hf : WF L f) (hg : WF L g)
+    (h : toMv L f = toMv L g) : f.Perm g := by
+  rw [List.perm_ext_iff_of_nodup (nodup_of_WF L hf) (nodup_of_WF L hg)]
+  have hk : ∀ d, d ∈ keys f ↔ d ∈ keys g := fun d => by
+    rw [mem_keys_iff L hf, mem_keys_iff L hg, h]
+  rintro ⟨d, c⟩
+  constructor
+  · intro hm
+    have hd : d ∈ keys g := (hk d).1 (List.mem_map.2 ⟨_, hm, rfl⟩)
+    have := coef_mem (F := F) hd
+    rwa [← coef_eq_of_toMv_eq L hf hg h, coef_of_mem hf.1 hm] at this
+  · intro hm
+    have hd : d ∈ keys f := (hk d).2 (List.mem_map.2 ⟨_, hm, rfl⟩)
+    have := coef_mem (F := F) hd
+    rwa [coef_eq_of_toMv_eq L hf hg h, coef_of_mem hg.1 hm] at this
+
+theorem toMv_eq_iff_perm {f g : BPoly α} (hf : WF L f) (hg : WF L g) :
+    toMv L f = toMv L g ↔ f.Perm g := ⟨perm_of_toMv_eq L hf hg, toMv_perm L⟩
+
+/-! ### coefficient-wise form of the arithmetic (equalities of representations) -/
+
+theorem coef_add {f g : BPoly α} (hf : WF L f) (hg : WF L g) (d : Deg) :
+    coef F (add F f g) d = F.add (coef F f d) (coef F g d) := by
+  have hv1 := coef_valid L hf.cv d
+  have hv2 := coef_valid L hg.cv d
+  apply L.inj _ _ (coef_valid L (WF_add L hf hg.cv).cv d) (L.add_valid _ _ hv1 hv2)
+  rw [← toMv_apply L (WF_add L hf hg.cv), toMv_add L hf hg.cv, AddMonoidAlgebra.coeff_add,
+    Finsupp.add_apply, toMv_apply L hf, toMv_apply L hg, L.embed_add _ _ hv1 hv2]
+
+theorem coef_sub {f g : BPoly α} (hf : WF L f) (hg : WF L g) (d : Deg) :
+    coef F (sub F f g) d = F.sub (coef F f d) (coef F g d) := by
+  have hv1 := coef_valid L hf.cv d
+  have hv2 := coef_valid L hg.cv d
+  apply L.inj _ _ (coef_valid L (WF_sub L hf hg.cv).cv d) (L.sub_valid _ _ hv1 hv2)
+  rw [← toMv_apply L (WF_sub L hf hg.cv), toMv_sub L hf hg.cv, AddMonoidAlgebra.coeff_sub,
+    Finsupp.sub_apply, toMv_apply L hf, toMv_apply L hg, L.embed_sub _ _ hv1 hv2]
+
+theorem coef_neg {f : BPoly α} (hf : WF L f) (d : Deg) :
+    coef F (neg F f) d = F.neg (coef F f d) := by
+  have hv1 := coef_valid L hf.cv d
+  apply L.inj _ _ (coef_valid L (WF_neg L hf).cv d) (L.neg_valid _ hv1)
+  rw [← toMv_apply L (WF_neg L hf), toMv_neg L hf.cv, AddMonoidAlgebra.coeff_neg,
+    Finsupp.neg_apply, toMv_apply L hf, L.embed_neg _ hv1]
+
+theorem coef_scale {f : BPoly α} (hf : WF L f) {c : α} (hc : L.valid c) (d : Deg) :
+    coef F (scale F f c) d = F.mul (coef F f d) c := by
+  have hv1 := coef_valid L hf.cv d
+  apply L.inj _ _ (coef_valid L (WF_scale L hf hc).cv d) (L.mul_valid _ _ hv1 hc)
+  rw [← toMv_apply L (WF_scale L hf hc), toMv_scale L hf.cv hc,
+    AddMonoidAlgebra.coeff_single_zero_mul, toMv_apply L hf, L.embed_mul _ _ hv1 hc, mul_comm]
 
 end BPoly
 end Algobra
